@@ -87,6 +87,12 @@ pub fn shard(ctx: &Ctx, spec: &Spec) -> Shard {
     while n < max_random && ctx.time_left() {
         let mut cfg = random_cfg(&mut rng, spec.profile.n_keys, spec.profile.n_meta, spec.dup);
         (spec.tweak_cfg)(&mut cfg, &mut rng);
+        // a quarter of the histories: small record limit, the background worker rotates the active blob by itself
+        if rng.chance(1, 4) {
+            cfg.max_records = Some(rng.range(1, 5));
+            cfg.auto_rotate = true;
+            sh.add("histories_auto_rotation", 1);
+        }
         let ops = gen_history(&mut rng, &spec.profile);
         let hid = ((ctx.shard as u64) << 20) | n;
         let out = run_history(&cfg, hid, &ops, spec.surface);
